@@ -102,8 +102,13 @@ func genC07(rng *rand.Rand, n int, emit func(Case), dist map[string]int) {
 		errv, esx := genErr(0)
 		errText := errv.Error()
 		commitBefore := 0
+		commitStyle := 0 // 0: a response helper with a body, 1: Flush alone (commits 200, e.g. an SSE set-up), 2: WriteHeader then Flush
 		if rng.Intn(4) == 0 {
 			commitBefore = []int{200, 201, 404}[rng.Intn(3)]
+			commitStyle = rng.Intn(3)
+			if commitStyle == 1 {
+				commitBefore = 200
+			}
 		}
 		mode := rng.Intn(5) // 0,1,2: returned by handler; 3: panic(error); 4: panic(non-error) ; middleware-returned folded into 0-2
 		panicText := ""
@@ -146,7 +151,15 @@ func genC07(rng *rand.Rand, n int, emit func(Case), dist map[string]int) {
 		viaMiddleware := mode <= 2 && rng.Intn(3) == 0
 		h := func(c echo.Context) error {
 			if commitBefore != 0 {
-				c.String(commitBefore, "partial")
+				switch commitStyle {
+				case 0:
+					c.String(commitBefore, "partial")
+				case 1:
+					c.Response().Flush()
+				default:
+					c.Response().WriteHeader(commitBefore)
+					c.Response().Flush()
+				}
 			}
 			if invalidSet {
 				return c.String(invalidStatus, "never sent")
@@ -240,7 +253,8 @@ func genC07(rng *rand.Rand, n int, emit func(Case), dist map[string]int) {
 		switch {
 		case escaped:
 			ok, why = false, "the panic / error escaped ServeHTTP: the client gets no response"
-		case w.hdrWrites != 1:
+		case w.hdrWrites != 1 && !(commitStyle == 1 && commitBefore != 0 && w.hdrWrites == 0):
+			// (with a bare Flush the recorder commits by itself when echo did not write a status line: judged by the next clause)
 			ok, why = false, fmt.Sprintf("%d status lines written for one request", w.hdrWrites)
 		case commitBefore != 0 && (w.Code != commitBefore || body != ""):
 			ok, why = false, fmt.Sprintf("response was already committed with %d, but the error handler changed it: status %d extra body %q", commitBefore, w.Code, body)
